@@ -1004,42 +1004,60 @@ func (g *grammarCtx) productionShape(fn *ssa.Function) string {
 func (g *grammarCtx) builtInRule(r *RuleResult) {
 	p := g.p
 	defT := p.LookupType("ast", "Definition")
-	n := 0
+	// marking functions: functions of package parser that store Definition.BuiltIn
+	marking := map[*ssa.Function]bool{}
+	for _, s := range storesToField(g.m.fns, defT, "BuiltIn") {
+		marking[rootFunc(s.fn)] = true
+	}
+	if len(marking) == 0 {
+		r.AnchorLost("a function of package parser that stores Definition.BuiltIn")
+		return
+	}
+	isEP := map[*ssa.Function]bool{}
+	for _, e := range g.m.eps {
+		isEP[e] = true
+	}
+	// every schema entry point marks, calls a marking function, or delegates to another entry point
+	var reaches func(fn *ssa.Function, seen map[*ssa.Function]bool) bool
+	reaches = func(fn *ssa.Function, seen map[*ssa.Function]bool) bool {
+		if marking[fn] {
+			return true
+		}
+		if seen[fn] {
+			return false
+		}
+		seen[fn] = true
+		ok := false
+		allInstrs(fn, func(in ssa.Instruction) {
+			if ci, isC := in.(ssa.CallInstruction); isC {
+				if callee := ci.Common().StaticCallee(); callee != nil && inParserPkg(g.m, callee) {
+					if (isEP[callee] && callee != fn) || reaches(callee, seen) {
+						ok = true
+					}
+				}
+			}
+		})
+		return ok
+	}
 	for _, fn := range g.m.eps {
 		res := namedOf(fn.Signature.Results().At(0).Type())
 		if res == nil || res.Obj().Name() != "SchemaDocument" {
 			continue
 		}
-		sts := storesToField([]*ssa.Function{fn}, defT, "BuiltIn")
-		if len(sts) == 0 {
-			// delegation to another entry point is fine
-			deleg := false
-			allInstrs(fn, func(in ssa.Instruction) {
-				if ci, ok := in.(ssa.CallInstruction); ok {
-					for _, e := range g.m.eps {
-						if ci.Common().StaticCallee() == e {
-							deleg = true
-						}
-					}
-				}
-			})
-			if deleg {
-				r.OK(p.FuncName(fn)+" delegates to another schema entry point", "")
-				continue
-			}
+		if reaches(fn, map[*ssa.Function]bool{}) {
+			r.OK(p.FuncName(fn)+" marks built-in definitions (itself, through a helper, or by delegation)", "")
+		} else {
 			r.Fail(fn.Pos(), p.FuncName(fn), "BuiltIn never copied", "definitions parsed from a built-in source are not marked built-in")
-			continue
 		}
-		n++
-		// the two marking loops: range over SchemaDocument.Definitions and .Extensions
+	}
+	for fn := range marking {
+		sts := storesToField([]*ssa.Function{fn}, defT, "BuiltIn")
 		loops := map[string]*ssa.BasicBlock{}
 		for _, s := range sts {
-			// the stored value must be source.BuiltIn
 			if !loadOfField(s.store.Val, "Source", "BuiltIn") {
 				r.Fail(s.store.Pos(), p.FuncName(fn), "BuiltIn not copied from the source", "the built-in flag stored on a definition is not the source's")
 				continue
 			}
-			// which list does the element come from?
 			base := unspill(s.addr.X)
 			which := ""
 			if u, ok := base.(*ssa.UnOp); ok {
@@ -1059,7 +1077,6 @@ func (g *grammarCtx) builtInRule(r *RuleResult) {
 				r.Fail(fn.Pos(), p.FuncName(fn), "no BuiltIn marking loop over "+lst, "entries of SchemaDocument."+lst+" from a built-in source are not marked built-in")
 				continue
 			}
-			// the loop header of this marking loop
 			_, bodies := loopsOf(fn)
 			var hdr *ssa.BasicBlock
 			for h, body := range bodies {
@@ -1071,7 +1088,6 @@ func (g *grammarCtx) builtInRule(r *RuleResult) {
 				r.Fail(fn.Pos(), p.FuncName(fn), "BuiltIn marking of "+lst+" is not in a loop", "only one entry is marked")
 				continue
 			}
-			// success returns must not be reachable while avoiding the loop header, except through source.BuiltIn == false
 			exempt := func(from, to *ssa.BasicBlock) bool {
 				ifi, ok := from.Instrs[len(from.Instrs)-1].(*ssa.If)
 				if !ok {
@@ -1081,7 +1097,6 @@ func (g *grammarCtx) builtInRule(r *RuleResult) {
 				if !loadOfField(cd.V, "Source", "BuiltIn") {
 					return false
 				}
-				// the edge taken when BuiltIn is false
 				if cd.True {
 					return to == from.Succs[1]
 				}
@@ -1090,11 +1105,10 @@ func (g *grammarCtx) builtInRule(r *RuleResult) {
 			rr := reachAvoiding(fn.Blocks[0], func(b *ssa.BasicBlock) bool { return b == hdr }, exempt)
 			skipped := false
 			for b := range rr {
-				if ret, ok := b.Instrs[len(b.Instrs)-1].(*ssa.Return); ok && !isNilConst(ret.Results[0]) {
+				if ret, ok := b.Instrs[len(b.Instrs)-1].(*ssa.Return); ok && len(ret.Results) > 0 && !isNilConst(ret.Results[0]) {
 					skipped = true
 				}
 			}
-			// the store itself must be unconditional within the loop body
 			if !skipped {
 				for _, s := range sts {
 					if s.store.Block() == blk && canSkip(s.store, nil) {
@@ -1108,8 +1122,5 @@ func (g *grammarCtx) builtInRule(r *RuleResult) {
 				r.OK(p.FuncName(fn)+": every entry of "+lst+" gets source.BuiltIn on every success path", "")
 			}
 		}
-	}
-	if n == 0 {
-		r.AnchorLost("a schema entry point that stores Definition.BuiltIn")
 	}
 }
